@@ -108,6 +108,17 @@ Section Init.
         split; [discriminate|]. intros _. split; [lia|reflexivity].
   Qed.
 
+  Lemma init_pipe_stream_inv : forall P mb data chunks, 0 < P ->
+    exists s, init_pipe_stream v P mb data chunks = Some s /\ Inv (length data) s /\ rest s = data.
+  Proof.
+    intros P mb data chunks HP. unfold init_pipe_stream, init_common. simpl.
+    set (s0 := mk_fp [] 0 0 0 (P * Nat.max (mb / P + 1) 2) false true true P data (open_stream data chunks) (S (S (length data)))).
+    destruct (read_start_inv 0 (P * Nat.max (mb / P + 1) 2) P data (open_stream data chunks) (S (S (length data))) false HP
+                (dms_init_ge P mb HP) eq_refl ltac:(lia) eq_refl eq_refl) as (I0 & R0).
+    fold s0 in I0, R0. destruct (shift_keeps _ s0 I0 eq_refl) as (s' & Hs & I' & R').
+    exists s'. split; [exact Hs|]. split; [exact I'|]. now rewrite R'.
+  Qed.
+
   Theorem init_inv : forall b P mb data chunks, 0 < P ->
     exists s, init v b P mb data chunks = Some s /\ Inv (length data) s /\ rest s = data.
   Proof.
@@ -115,6 +126,7 @@ Section Init.
     - now apply init_file_inv.
     - now apply init_pipe_inv.
     - now apply init_stream_inv.
+    - now apply init_pipe_stream_inv.
   Qed.
 End Init.
 
